@@ -1038,6 +1038,12 @@ class Interp:
         if isinstance(f, BoundBuiltin):
             return models.call_bound(self, f, args, kwargs)
         if isinstance(f, ExtRef):
+            cur = self.engine.current
+            if cur is not None and f.name in getattr(cur, "externals", {}):
+                self.ctx.trusted.add(f"external:{f.name} returns the contract's ghost object `{cur.externals[f.name]}`")
+                efr = Frame(self.engine.contract_module(cur), dict(self.ctx.ghost))
+                efr.locals["args"] = tuple(args)
+                return self.eval(self.engine.parse_clause(cur.externals[f.name]), efr)
             return models.call_ext(self, f, args, kwargs)
         if isinstance(f, models.ModelCallable):
             return f.call(self, args, kwargs)
